@@ -16,7 +16,8 @@ import shutil
 from vlib import contracts, env
 
 RULE = ("seeded random record lists with ids repeated 1-5 times (adjacent and interleaved), overlapping/disjoint contests, "
-        "every phantom/pool/tally_pool combination incl. conflicts; RAIRE inputs with 1-3 contests and repeated ballot "
+        "every phantom/pool/tally_pool combination incl. conflicts, a quarter of the lists with votes objects shared between "
+        "cards; RAIRE inputs with 1-3 contests and repeated ballot "
         "ids; non-trivial = some id occurs more than once; distinct = hash of the input list")
 REQUIRED = ["contract:CVR.merge_cvrs", "merge_checked", "merge_conflict_expected", "merged_with_pool_true",
             "merged_with_pool_false", "merged_phantom_mixed", "raire_checked", "raire_file_checked",
